@@ -116,6 +116,8 @@ func checkC09(ctx *Ctx) {
 	for k := 0; k < 6; k++ {
 		surplusFails(ctx)
 	}
+	lateFailureBesideParams(ctx)
+	lateFailureBesideParams(ctx)
 	// tasks that cannot be formed
 	unformable := []struct {
 		name string
@@ -179,6 +181,22 @@ func surplusFails(ctx *Ctx) {
 	ctx.Res.Count("join-surplus-failure")
 	if rr.Exit == 0 || rr.Returned {
 		ctx.Res.Violate(Violation{What: fmt.Sprintf("the task producing the surplus item of a join failed (exit 3) but the workflow ended with exit %d, returned=%v", rr.Exit, rr.Returned), Class: "c09.silent", Witness: "surplus-fails"})
+	}
+}
+
+// a parameter stream nobody consumes ends in the sink beside the file stream: the sink still waits for the file
+// stream, so a task failing late still stops the workflow
+func lateFailureBesideParams(ctx *Ctx) {
+	d := &Desc{Name: "c09params", Max: 2, Nodes: []Node{{Name: "src", Kind: "filesource", Paths: []string{"z.txt"}},
+		{Name: "ps", Kind: "paramsource", Values: []string{"v1", "v2"}},
+		{Name: "slowfail", Kind: "proc", Cmd: "( sleep 0.5 ; cat {i:in} > {o:out} ; exit 3 )", Outs: map[string]string{"out": "{i:in}.sf"}}},
+		Edges: []Edge{{From: "src.out", To: "slowfail.in"}}}
+	rr := RunWorkflow(d, RunOpts{Pre: map[string]string{"z.txt": "z\n"}, Timeout: 15e9})
+	defer os.RemoveAll(rr.Dir)
+	ctx.Res.Eval("late failure beside an unconsumed parameter stream", true, "late-failure-params")
+	ctx.Res.Count("failure+dangling-param-port")
+	if rr.Exit == 0 || rr.Returned {
+		ctx.Res.Violate(Violation{What: fmt.Sprintf("a task failed (exit 3) after an unconsumed parameter stream had ended; the workflow ended with exit %d, returned=%v", rr.Exit, rr.Returned), Class: "c09.silent", Witness: "late-failure-params"})
 	}
 }
 
